@@ -10,8 +10,11 @@ def chem_patterns(ns, nc, tier):
     pats = [None]
     if ns > 1:
         pats.append([1 if s == ns - 1 else 0 for s in range(ns) for i in range(nc)])
-    if tier != "quick" and ns > 2:
-        pats.append([1 if (s == 0 and i == 0) else 0 for s in range(ns) for i in range(nc)])
+    if ns > 2:
+        # a species in the MIDDLE of the species list flagged (in one cell only when there are several)
+        pats.append([1 if (s == 1 and (i == 0 or nc == 1)) else 0 for s in range(ns) for i in range(nc)])
+    if tier != "quick" and ns > 1:
+        pats.append([1 if s == 0 else 0 for s in range(ns) for i in range(nc)])
     return pats
 
 
